@@ -146,57 +146,176 @@ let hex_of_bytes (l : byte list) : string =
 let string_of_bytes (l : byte list) : string =
   String.init (List.length l) (fun i -> Char.chr (int_of_byte (List.nth l i)))
 
-let cst_type_of_tokens (toks : string list) : ctype =
-  let q = ref toks in
-  let next () = match !q with [] -> failwith "cst: eof" | t :: r -> q := r; t in
-  let payload t = bytes_of_hex (String.sub t 1 (String.length t - 1)) in
-  let count t = int_of_string (String.sub t 1 (String.length t - 1)) in
-  let rec times n f = if n <= 0 then [] else let x = f () in x :: times (n - 1) f in
-  let atom () = let t = next () in
-    match t.[0] with
-    | 'w' -> BWs (payload t) | 'l' -> BLine (payload t) | 'h' -> BHash (payload t) | 'k' -> BBlock (payload t)
-    | _ -> failwith "cst: atom" in
-  let blank () = let t = next () in if t.[0] <> 'b' then failwith "cst: blank"; times (count t) atom in
-  let lit () = let t = next () in
-    match t.[0] with
-    | 'q' -> { l_dq = false; l_body = payload t } | 'Q' -> { l_dq = true; l_body = payload t }
-    | _ -> failwith "cst: lit" in
-  let sep () = match next () with
-    | "s0" -> SepNone | "s," -> let b = blank () in SepSome (false, b) | "s;" -> let b = blank () in SepSome (true, b)
-    | _ -> failwith "cst: sep" in
-  let ann () =
-    let b1 = blank () in let key = payload (next ()) in let b2 = blank () in let b3 = blank () in let l = lit () in
-    let b4 = blank () in let s = sep () in
-    { ca_b1 = b1; ca_key = key; ca_b2 = b2; ca_b3 = b3; ca_lit = l; ca_b4 = b4; ca_sep = s } in
-  let cpp () = match next () with
-    | "c0" -> None
-    | "c1" -> let b1 = blank () in let b2 = blank () in let l = lit () in Some { cc_b1 = b1; cc_b2 = b2; cc_lit = l }
-    | _ -> failwith "cst: cpp" in
-  let base = function
-    | "string" -> BString | "void" -> BVoid | "byte" -> BByte | "bool" -> BBool | "binary" -> BBinary | "i8" -> BI8
-    | "i16" -> BI16 | "i32" -> BI32 | "i64" -> BI64 | "double" -> BDouble | "uuid" -> BUuid | _ -> failwith "cst: base" in
-  let rec ty () = match next () with
-    | "base" -> CTBase (base (next ()))
-    | "list" -> let b1 = blank () in let b2 = blank () in let t = typ () in let b3 = blank () in let c = cpp () in
-      CTList (b1, b2, t, b3, c)
-    | "set" -> let c = cpp () in let b1 = blank () in let b2 = blank () in let t = typ () in let b3 = blank () in
-      CTSet (c, b1, b2, t, b3)
-    | "map" -> let c = cpp () in let b1 = blank () in let b2 = blank () in let k = typ () in let b3 = blank () in
-      let semi = (match next () with "," -> false | ";" -> true | _ -> failwith "cst: mapsep") in
-      let b4 = blank () in let v = typ () in let b5 = blank () in
-      CTMap (c, b1, b2, k, b3, semi, b4, v, b5)
-    | "path" -> let h = payload (next ()) in let n = count (next ()) in
-      let tl = times n (fun () -> let b1 = blank () in let b2 = blank () in let s = payload (next ()) in ((b1, b2), s)) in
-      CTPath { cp_head = h; cp_tail = tl }
-    | _ -> failwith "cst: ty"
-  and typ () =
-    (match next () with "T" -> () | _ -> failwith "cst: T");
-    let t = ty () in
-    match next () with
-    | "N" -> CType (t, None)
-    | "A" -> let b = blank () in let n = count (next ()) in let l = times n ann in CType (t, Some (b, l))
-    | _ -> failwith "cst: annopt" in
-  let r = typ () in
+(* token stream of the serialized tree *)
+let q : string list ref = ref []
+let next () = match !q with [] -> failwith "cst: eof" | t :: r -> q := r; t
+let payload t = bytes_of_hex (String.sub t 1 (String.length t - 1))
+let count t = int_of_string (String.sub t 1 (String.length t - 1))
+let rec times n f = if n <= 0 then [] else let x = f () in x :: times (n - 1) f
+let expect c what = let t = next () in if t = "" || t.[0] <> c then failwith ("cst: " ^ what ^ " at " ^ t); t
+let atom () = let t = next () in
+  match t.[0] with
+  | 'w' -> BWs (payload t) | 'l' -> BLine (payload t) | 'h' -> BHash (payload t) | 'k' -> BBlock (payload t)
+  | _ -> failwith "cst: atom"
+let blank () = let t = expect 'b' "blank" in times (count t) atom
+let r_lit () = let t = next () in
+  match t.[0] with
+  | 'q' -> { l_dq = false; l_body = payload t } | 'Q' -> { l_dq = true; l_body = payload t }
+  | _ -> failwith "cst: lit"
+let sep () = match next () with
+  | "s0" -> SepNone | "s," -> let b = blank () in SepSome (false, b) | "s;" -> let b = blank () in SepSome (true, b)
+  | _ -> failwith "cst: sep"
+let ident () = payload (expect 'i' "ident")
+let ann () =
+  let b1 = blank () in let key = ident () in let b2 = blank () in let b3 = blank () in let l = r_lit () in
+  let b4 = blank () in let s = sep () in
+  { ca_b1 = b1; ca_key = key; ca_b2 = b2; ca_b3 = b3; ca_lit = l; ca_b4 = b4; ca_sep = s }
+let anns_list () = let n = count (expect 'n' "annotation count") in times n ann
+let oanns () = match next () with "N" -> None | "A" -> Some (anns_list ()) | _ -> failwith "cst: oanns"
+let anns2 () = match next () with
+  | "N" -> None | "A" -> let l = anns_list () in let b = blank () in Some (l, b) | _ -> failwith "cst: anns2"
+let tail () = let b = blank () in let a = oanns () in let s = sep () in { t_b = b; t_anns = a; t_sep = s }
+let cpp () = match next () with
+  | "c0" -> None
+  | "c1" -> let b1 = blank () in let b2 = blank () in let l = r_lit () in Some { cc_b1 = b1; cc_b2 = b2; cc_lit = l }
+  | _ -> failwith "cst: cpp"
+let base = function
+  | "string" -> BString | "void" -> BVoid | "byte" -> BByte | "bool" -> BBool | "binary" -> BBinary | "i8" -> BI8
+  | "i16" -> BI16 | "i32" -> BI32 | "i64" -> BI64 | "double" -> BDouble | "uuid" -> BUuid | _ -> failwith "cst: base"
+let cpath () =
+  let h = ident () in let n = count (expect 'p' "path count") in
+  let tl = times n (fun () -> let b1 = blank () in let b2 = blank () in let s = ident () in ((b1, b2), s)) in
+  { cp_head = h; cp_tail = tl }
+let rec ty () = match next () with
+  | "base" -> CTBase (base (next ()))
+  | "list" -> let b1 = blank () in let b2 = blank () in let t = typ () in let b3 = blank () in let c = cpp () in
+    CTList (b1, b2, t, b3, c)
+  | "set" -> let c = cpp () in let b1 = blank () in let b2 = blank () in let t = typ () in let b3 = blank () in
+    CTSet (c, b1, b2, t, b3)
+  | "map" -> let c = cpp () in let b1 = blank () in let b2 = blank () in let k = typ () in let b3 = blank () in
+    let semi = (match next () with "," -> false | ";" -> true | _ -> failwith "cst: mapsep") in
+    let b4 = blank () in let v = typ () in let b5 = blank () in
+    CTMap (c, b1, b2, k, b3, semi, b4, v, b5)
+  | "path" -> CTPath (cpath ())
+  | _ -> failwith "cst: ty"
+and typ () =
+  (match next () with "T" -> () | _ -> failwith "cst: T");
+  let t = ty () in
+  match next () with
+  | "N" -> CType (t, None)
+  | "A" -> let b = blank () in let l = anns_list () in CType (t, Some (b, l))
+  | _ -> failwith "cst: annopt"
+let cint () =
+  (match next () with "I" | "CI" -> () | _ -> failwith "cst: int");
+  let m = int_of_string (next ()) in
+  let hex = (match next () with "h" -> true | "d" -> false | _ -> failwith "cst: radix") in
+  let d = ident () in
+  { ci_minus = nat_of_int m; ci_hex = hex; ci_digits = d }
+let cexp () = let u = (match next () with "E" -> true | "e" -> false | _ -> failwith "cst: exp") in
+  let i = cint () in { ce_upper = u; ce_int = i }
+let oexp () = match next () with "x0" -> None | "x1" -> Some (cexp ()) | _ -> failwith "cst: oexp"
+let cdbl () =
+  let m = next () = "1" in let p = next () = "1" in
+  let body = (match next () with
+    | "A" -> let ip = ident () in let fp = ident () in let e = oexp () in DBodyA (ip, fp, e)
+    | "B" -> let fp = ident () in let e = oexp () in DBodyB (fp, e)
+    | "C" -> let ip = ident () in let e = cexp () in DBodyC (ip, e)
+    | _ -> failwith "cst: dbody") in
+  { cd_minus = m; cd_plus = p; cd_body = body }
+let rec cconst () = match next () with
+  | "CL" -> CCLit (r_lit ())
+  | "CB1" -> CCBool true
+  | "CB0" -> CCBool false
+  | "CP" -> CCPath (cpath ())
+  | "CD" -> CCDbl (cdbl ())
+  | "CI" -> q := "I" :: !q; CCInt (cint ())
+  | "CLIST" -> let b0 = blank () in let n = count (expect 'm' "element count") in
+    let rec els k = if k <= 0 then CLNil else
+        let v = cconst () in let b = blank () in let s = sep () in let r = els (k - 1) in CLCons (v, b, s, r) in
+    let l = els n in CCList (b0, l)
+  | "CMAP" -> let b0 = blank () in let n = count (expect 'm' "element count") in
+    let rec els k = if k <= 0 then CMNil else
+        let key = cconst () in let b1 = blank () in let b2 = blank () in let v = cconst () in let b3 = blank () in
+        let s = sep () in let r = els (k - 1) in CMCons (key, b1, b2, v, b3, s, r) in
+    let l = els n in CCMap (b0, l)
+  | t -> failwith ("cst: const " ^ t)
+let cfield () =
+  ignore (expect 'F' "field");
+  let id = ident () in let b1 = blank () in let b2 = blank () in
+  let attr = (match next () with
+    | "a0" -> None | "ar" -> let b = blank () in Some (true, b) | "ao" -> let b = blank () in Some (false, b)
+    | _ -> failwith "cst: attr") in
+  let t = typ () in let b3 = blank () in let name = ident () in let b4 = blank () in
+  let d = (match next () with
+    | "d0" -> None | "d1" -> let b5 = blank () in let v = cconst () in let b6 = blank () in Some ((b5, v), b6)
+    | _ -> failwith "cst: default") in
+  let a = anns2 () in let s = sep () in
+  { cf_id = id; cf_b1 = b1; cf_b2 = b2; cf_attr = attr; cf_type = t; cf_b3 = b3; cf_name = name; cf_b4 = b4;
+    cf_default = d; cf_anns = a; cf_sep = s }
+let cfields () = let n = count (expect 'f' "field count") in times n cfield
+let cstruct () =
+  let name = ident () in let b1 = blank () in let b0 = blank () in let fs = cfields () in let t = tail () in
+  { cs_name = name; cs_b1 = b1; cs_b0 = b0; cs_fields = fs; cs_tail = t }
+let cenumval () =
+  let name = ident () in let b1 = blank () in
+  let v = (match next () with
+    | "v0" -> None | "v1" -> let b2 = blank () in let i = cint () in let b3 = blank () in Some ((b2, i), b3)
+    | _ -> failwith "cst: enum value") in
+  let a = oanns () in let s = sep () in let b4 = blank () in
+  { ev_cname = name; ev_b1 = b1; ev_val = v; ev_canns = a; ev_sep = s; ev_b4 = b4 }
+let cenum () =
+  let b1 = blank () in let name = ident () in let b2 = blank () in let b0 = blank () in
+  let n = count (expect 'e' "enum value count") in let vs = times n cenumval in
+  let b3 = blank () in let a = oanns () in
+  { ce_b1 = b1; ce_name = name; ce_b2 = b2; ce_b0 = b0; ce_vals = vs; ce_b3 = b3; ce_anns = a }
+let cfunction () =
+  let ow = (match next () with "o0" -> None | "o1" -> Some (blank ()) | _ -> failwith "cst: oneway") in
+  let t = typ () in let b1 = blank () in let name = ident () in let b2 = blank () in let b0 = blank () in
+  let args = cfields () in let b3 = blank () in
+  let th = (match next () with
+    | "t0" -> None
+    | "t1" -> let t1 = blank () in let t0 = blank () in let fs = cfields () in let t2 = blank () in
+      Some { th_b1 = t1; th_b0 = t0; th_fields = fs; th_b2 = t2 }
+    | _ -> failwith "cst: throws") in
+  let a = oanns () in let s = sep () in
+  { fn_coneway = ow; fn_type = t; fn_b1 = b1; fn_cname = name; fn_b2 = b2; fn_b0 = b0; fn_args = args; fn_b3 = b3;
+    fn_cthrows = th; fn_canns = a; fn_sep = s }
+let cservice () =
+  let b1 = blank () in let name = ident () in
+  let ext = (match next () with
+    | "x0" -> None | "x1" -> let e1 = blank () in let e2 = blank () in let p = cpath () in Some ((e1, e2), p)
+    | _ -> failwith "cst: extends") in
+  let b2 = blank () in let n = count (expect 'g' "function count") in
+  let fns = times n (fun () -> let b = blank () in let f = cfunction () in (b, f)) in
+  let b3 = blank () in let t = tail () in
+  { sv_b1 = b1; sv_cname = name; sv_cextends = ext; sv_b2 = b2; sv_fns = fns; sv_b3 = b3; sv_tail = t }
+let cnamespace () =
+  let b1 = blank () in let sc = ident () in let b2 = blank () in let p = cpath () in let b3 = blank () in
+  let a = anns2 () in let s = sep () in
+  { ns_b1 = b1; ns_cscope = sc; ns_b2 = b2; ns_path = p; ns_b3 = b3; ns_canns = a; ns_sep = s }
+let citem () = match next () with
+  | "include" -> let b = blank () in let l = r_lit () in let s = sep () in CIInclude (b, l, s)
+  | "cpp_include" -> let b = blank () in let l = r_lit () in let s = sep () in CICppInclude (b, l, s)
+  | "namespace" -> CINamespace (cnamespace ())
+  | "typedef" -> let b1 = blank () in let t = typ () in let b2 = blank () in let a = ident () in let tl = tail () in
+    CITypedef { ctd_b1 = b1; ctd_type = t; ctd_b2 = b2; ctd_alias = a; ctd_tail = tl }
+  | "const" -> let b1 = blank () in let t = typ () in let b2 = blank () in let name = ident () in let b3 = blank () in
+    let b4 = blank () in let v = cconst () in let tl = tail () in
+    CIConst { ck_b1 = b1; ck_type = t; ck_b2 = b2; ck_name = name; ck_b3 = b3; ck_b4 = b4; ck_val = v; ck_tail = tl }
+  | "enum" -> CIEnum (cenum ())
+  | "struct" -> let b = blank () in CIStruct (SKStruct, b, cstruct ())
+  | "union" -> let b = blank () in CIStruct (SKUnion, b, cstruct ())
+  | "exception" -> let b = blank () in CIStruct (SKException, b, cstruct ())
+  | "service" -> CIService (cservice ())
+  | t -> failwith ("cst: item " ^ t)
+let cfile () =
+  let b0 = blank () in let n = count (expect 'm' "item count") in
+  let items = times n (fun () -> let it = citem () in let b = blank () in (it, b)) in
+  { fl_b0 = b0; fl_items = items }
+
+let with_tokens (text : byte list) (f : unit -> 'a) : 'a =
+  q := List.filter (fun s -> s <> "") (String.split_on_char ' ' (string_of_bytes text));
+  let r = f () in
   if !q <> [] then failwith "cst: trailing tokens"; r
 
 let run_case (entry : string) (text : byte list) : string =
@@ -208,10 +327,16 @@ let run_case (entry : string) (text : byte list) : string =
   | "nesting" -> "NEST " ^ string_of_z (nesting text)
   | "print-type" ->
     (* the Coq printer on a serialized concrete syntax tree: text, well-formedness, the erased tree *)
-    let c = cst_type_of_tokens (List.filter (fun s -> s <> "") (String.split_on_char ' ' (string_of_bytes text))) in
+    let c = with_tokens text typ in
     let b = Buffer.create 256 in
     type_c b (erase_type c);
     Printf.sprintf "TEXT %s WF %b SIMPLE %b ERASE %s" (hex_of_bytes (pr_type c [])) (wf_type c) (simple_type c) (Buffer.contents b)
+  | "print-file" ->
+    (* the Coq printer on a serialized concrete syntax tree of a whole document *)
+    let c = with_tokens text cfile in
+    let b = Buffer.create 1024 in
+    file_c b (erase_file c);
+    Printf.sprintf "TEXT %s WF %b ERASE %s" (hex_of_bytes (pr_file c [])) (wf_file c) (Buffer.contents b)
   | "filemin" ->
     (* File::parse with the least depth fuel C16_depth allows: nesting + 1 *)
     let d = int_of_string (string_of_z (nesting text)) + 1 in
